@@ -108,6 +108,9 @@ void h_register_entry_size(void)
  * space), flags, callbacks present or not, addresses, types, constraint
  * kinds and limits, defaults, validator verdicts, table flags. */
 struct rb_ghost g_rb;
+RegisterAtom *g_cell;                 /* ghost word of contracts/registers-typed.h */
+static RegisterAtom rb_elsewhere;    /* a word outside every table object */
+static bool rb_cb_verdict[RB_NE + 1]; /* validator verdict about each register's default */
 
 struct rb_tab {
   RegisterTable *t;
@@ -126,7 +129,11 @@ struct rb_tab {
  * block (in_*_atend, nondeterministic), so that an access one element before
  * or behind it leaves the object in one of the two placements.  Writes into
  * the slack are caught in both placements by the assigns clauses. */
+#ifdef RB_NO_PLACE
+#define RB_PLACE(blk, cap, len, atend) (blk)
+#else
 #define RB_PLACE(blk, cap, len, atend) ((blk) + ((atend) ? (cap) - (len) : 0))
+#endif
 
 static struct rb_tab rb_description(void)
 {
@@ -155,8 +162,13 @@ static struct rb_tab rb_description(void)
       a->entry.first = in_afirst; a->entry.last = in_alast; a->entry.count = in_acount;
       a->mem = NULL;
       if (in_akind & RB_AK_MEM) {
-        IN_MEM(in_amem, RB_SZ * sizeof(RegisterAtom))
-        a->mem = RB_PLACE((RegisterAtom *)in_amem, RB_SZ, in_asize, in_amem_atend);
+        RegisterAtom *in_amem = malloc(sizeof(RegisterAtom) * RB_SZ);
+        ASSUME(in_amem != NULL);
+        for (uint32_t w = 0; w < RB_SZ; w++) {
+          IN(uint16_t, in_aword)
+          in_amem[w] = in_aword;
+        }
+        a->mem = RB_PLACE(in_amem, RB_SZ, in_asize, in_amem_atend);
       }
     } else if (i == in_na) {
       RegisterArea end = REGISTER_AREA_END;
@@ -167,7 +179,7 @@ static struct rb_tab rb_description(void)
     if (j < in_ne) {
       RegisterEntry *e = &T.entry[j];
       IN(uint8_t, in_etype) IN(uint64_t, in_edefault) IN(uint32_t, in_eaddr) IN(uint16_t, in_eflags)
-      IN(uint8_t, in_echeck) IN(uint64_t, in_emin) IN(uint64_t, in_emax) IN(_Bool, st_verdict)
+      IN(uint8_t, in_echeck) IN(uint64_t, in_emin) IN(uint64_t, in_emax)
       ASSUME(in_etype <= REG_TYPE_FLOAT64 && in_echeck <= REGV_TYPE_CALLBACK);
       e->type = (RegisterType)in_etype;
       ASSUME(RB_M64(in_eaddr) + RB_WORDS(e->type) <= 0xffffffffull);
@@ -178,19 +190,22 @@ static struct rb_tab rb_description(void)
       e->check.arg.range.min.u64 = in_emin;
       e->check.arg.range.max.u64 = in_emax;
       if (e->check.type == REGV_TYPE_CALLBACK)
-        e->check.arg.cb = rb_stub_validator;
+        e->check.arg.cb = st_validator;
       e->name = NULL; e->user = NULL;
       e->area = NULL; e->offset = 0;
-      st_cb_verdict[j] = st_verdict;
+      rb_cb_verdict[j] = SPEC_CB_VERDICT(e->address, e->type, rb_bits_of(e->type, e->default_value));
     } else if (j == in_ne) {
       RegisterEntry end = REGISTER_ENTRY_END;
       T.entry[j] = end;
     }
   }
   IN(uint16_t, in_tflags) IN(uint16_t, in_tareas) IN(uint32_t, in_tentries)
+#if VERIF_IS_NATIVE
+  { IN(uint64_t, in_cb_seed) st_cb_seed = in_cb_seed; }
+#endif
   T.t->flags = in_tflags; T.t->areas = in_tareas; T.t->entries = in_tentries;
   T.t->area = T.area; T.t->entry = T.entry;
-  g_rb_entries = T.entry;
+  g_cell = &rb_elsewhere;
   return T;
 }
 
@@ -217,7 +232,7 @@ void h_register_init(void)
   struct rb_tab T = rb_description();
   bool be = (T.t->flags & REG_TF_BIG_ENDIAN) != 0;
   rb_snapshot(&T);
-  g_rb.init = rb_spec_first_violation(T.area, T.na, T.entry, T.ne, be, st_cb_verdict);
+  g_rb.init = rb_spec_first_violation(T.area, T.na, T.entry, T.ne, be, rb_cb_verdict);
   g_rb.init_word = rb_spec_init_word(T.area, T.na, T.entry, T.ne, be, (uint32_t)g_a, (uint32_t)g_k);
   ASSUME(g_a <= 0xffffffffull && g_k <= 0xffffffffull);
   register_init(T.t);
